@@ -4,6 +4,8 @@
  *                                               -> ok <nmodules> | err Schema
  *   rt <xml|json> <data-hex>                    parse+validate, then the print->parse matrix
  *                                               -> ok <matrix> <xml-hex> <json-hex> <view-hex> | err Parse <kind>
+ *   opaqview <xml|json> <data-hex>              parse with LYD_PARSE_OPAQ | LYD_PARSE_ONLY; the shrunk XML output and the forest as the
+ *                                               XML printer reads it (ovw_r below)  -> ok <xml-shrink-hex> <view-hex> | err Parse
  *   cross <xml-hex> <json-hex>                  the same instance encoded independently in XML and JSON
  *                                               -> ok <eq:0|1> | err ParseXml|ParseJson
  *
@@ -14,6 +16,7 @@
  *   basetype, dflt flag, canonical value hex — what an independent encoder/decoder needs to know about the tree.   */
 #define _GNU_SOURCE
 #include "libyang.h"
+#include "xml.h"        /* struct lyxml_ns: the entries of the value prefix data of opaque nodes (op opaqview) */
 #include "proto.h"
 
 static struct ly_ctx *ctx;
@@ -273,6 +276,58 @@ jview_r(struct sbuf *b, const struct lyd_node *n, int depth, uint32_t opts)
     return 1;
 }
 
+/* ---- XML printer view of opaque nodes: exactly the fields xml_print_opaq / xml_print_attr / xml_prefix_is_reserved read ------
+ *   N <depth> <fmt x|j|d> <name> <prefix|~> <module_ns|~> <value> <k> (<prefix|~> <uri>){k}        one line per node, pre-order
+ *   A <fmt x|j> <prefix|~> <module_ns|~> <name> <value> <k> (<prefix|~> <uri>){k}                   its attributes, in order
+ * strings in hex ('-' empty, '~' NULL); fmt d = a data node (has a schema), j = LY_VALUE_JSON names (module name, no prefix data) */
+static void
+sb_hexn(struct sbuf *b, const char *s)
+{
+    if (!s) { sb_printf(b, "~"); return; }
+    sb_hex(b, s);
+}
+
+static void
+ovw_pfxdata(struct sbuf *b, LY_VALUE_FORMAT fmt, const void *pd)
+{
+    const struct ly_set *set = (fmt == LY_VALUE_XML) ? pd : NULL;
+    uint32_t i;
+
+    sb_printf(b, " %u", set ? set->count : 0);
+    for (i = 0; set && i < set->count; i++) {
+        const struct lyxml_ns *ns = set->objs[i];
+        sb_printf(b, " "); sb_hexn(b, ns->prefix); sb_printf(b, " "); sb_hex(b, ns->uri);
+    }
+}
+
+static void
+ovw_r(struct sbuf *b, const struct lyd_node *n, int depth)
+{
+    for (; n; n = n->next) {
+        const struct lyd_node_opaq *o = (const struct lyd_node_opaq *)n;
+        const struct lyd_attr *a;
+
+        if (n->schema) {
+            sb_printf(b, "N %d d ", depth); sb_hex(b, n->schema->name); sb_printf(b, " ~ ~ - 0\n");
+            ovw_r(b, lyd_child(n), depth + 1);
+            continue;
+        }
+        sb_printf(b, "N %d %c ", depth, o->format == LY_VALUE_XML ? 'x' : 'j');
+        sb_hex(b, o->name.name); sb_printf(b, " "); sb_hexn(b, o->name.prefix); sb_printf(b, " ");
+        sb_hexn(b, o->name.module_ns); sb_printf(b, " "); sb_hex(b, o->value);
+        ovw_pfxdata(b, o->format, o->val_prefix_data);
+        sb_printf(b, "\n");
+        for (a = o->attr; a; a = a->next) {
+            sb_printf(b, "A %c ", a->format == LY_VALUE_XML ? 'x' : 'j');
+            sb_hexn(b, a->name.prefix); sb_printf(b, " "); sb_hexn(b, a->name.module_ns); sb_printf(b, " ");
+            sb_hex(b, a->name.name); sb_printf(b, " "); sb_hex(b, a->value);
+            ovw_pfxdata(b, a->format, a->val_prefix_data);
+            sb_printf(b, "\n");
+        }
+        ovw_r(b, o->child, depth + 1);
+    }
+}
+
 static char *
 print_mem(const struct lyd_node *t, LYD_FORMAT f, uint32_t opts)
 {
@@ -431,6 +486,24 @@ main(void)
                 vp_end();
             }
             free(x); free(xs); free(x2); lyd_free_all(t); lyd_free_all(t2); free(d);
+        } else if (!strcmp(op, "opaqview") && r.ntok == 5 && ctx) {
+            LYD_FORMAT fin = !strcmp(r.tok[3], "xml") ? LYD_XML : LYD_JSON;
+            char *d = vp_unhex(r.tok[4], NULL), *xs = NULL;
+            struct lyd_node *t = NULL;
+            struct sbuf vb = {0};
+
+            ly_err_clean(ctx, NULL);
+            if (lyd_parse_data_mem(ctx, d, fin, LYD_PARSE_OPAQ | LYD_PARSE_ONLY, 0, &t)) {
+                vp_reply(id, "err Parse");
+            } else {
+                xs = print_mem(t, LYD_XML, LYD_PRINT_WITHSIBLINGS | LYD_PRINT_SHRINK);
+                ovw_r(&vb, t, 0);
+                vp_begin(id, "ok");
+                vp_field_hex(xs ? xs : "", xs ? strlen(xs) : 0);
+                vp_field_hex(vb.s ? vb.s : "", vb.len);
+                vp_end();
+            }
+            free(xs); free(vb.s); lyd_free_all(t); free(d);
         } else if (!strcmp(op, "leakcheck")) {
             vp_reply(id, "ok %d", VP_LEAKCHECK() ? 1 : 0);
         } else if (!strcmp(op, "cross") && r.ntok == 5 && ctx) {
